@@ -6,6 +6,9 @@
   until it closes it is checked on every generated reply by the Impl-vs-Spec oracle.
 -/
 import Resolved.Spec.UpstreamSpec
+import Resolved.Proofs.UpstreamLemmas
+import Resolved.Proofs.UpstreamFollow
+import Resolved.Proofs.UpstreamSpecLemmas
 
 namespace Resolved
 
@@ -72,5 +75,442 @@ theorem C06_answer_records_from_answer_section (q : Question) (resp : Message) (
         obtain ⟨_, _, h⟩ := h
         cases h
       · cases h
+
+/-- A referral is used only if it is strictly closer to the question name than the delegation
+    already in use: the chosen zone has more labels than `mc`, encloses the question name, and
+    comes with at least one name-server host name.  (Also the step lemma of C07.) -/
+theorem C06_delegation_closer (q : Question) (resp : Message) (mc : Nat) (rrs : List RR)
+    (hs : List Name) (name : Name)
+    (h : validateNameserverResponse q resp mc = some (.delegation rrs hs name)) :
+    name.labels.length > mc ∧ q.name.isSubdomainOf name = true ∧ hs ≠ [] := by
+  obtain ⟨_, hc, _⟩ := validate_delegation h
+  have sp := chooseNs_spec hc
+  exact ⟨sp.closer, sp.sub, sp.ne⟩
+
+/-- What `getBetterNsNames` returns: a zone deeper than `mc` enclosing the target, owned by an NS
+    record of `rrs` for it; no enclosing NS owner in `rrs` is deeper; the host names are exactly the
+    targets of the NS records of `rrs` whose owner encloses the target at that depth. -/
+theorem C06_getBetterNsNames_spec (rrs : List RR) (target : Name) (mc : Nat) (mn : Name)
+    (ns : List Name) (h : getBetterNsNames rrs target mc = some (mn, ns)) :
+    mn.labels.length > mc ∧ target.isSubdomainOf mn = true ∧ ns ≠ [] ∧
+    (∃ rr ∈ rrs, rr.name = mn ∧ (nsTarget rr).isSome = true) ∧
+    (∀ rr ∈ rrs, (nsTarget rr).isSome = true → target.isSubdomainOf rr.name = true →
+        rr.name.labels.length ≤ mn.labels.length) ∧
+    (∀ n, n ∈ ns ↔ ∃ rr ∈ rrs, nsTarget rr = some n ∧ target.isSubdomainOf rr.name = true ∧
+        rr.name.labels.length = mn.labels.length) := by
+  have sp := getBetterNsNames_spec h
+  obtain ⟨pre1, rr, pre2, hp, hn, hc, _⟩ := sp.first
+  refine ⟨sp.closer, sp.sub, sp.ne, ⟨rr, by simp [hp], hn, hc.1⟩, ?_, sp.hosts⟩
+  intro r hr h1 h2
+  exact sp.maxd r hr ⟨h1, h2⟩
+
+/-- The zone and host names of a referral, over the answer and authority sections together: the
+    zone owns an NS record there, is the deepest enclosing NS owner, and the host set is exactly the
+    set of targets of the enclosing NS records at that depth. -/
+theorem C06_delegation_zone (q : Question) (resp : Message) (mc : Nat) (rrs : List RR)
+    (hs : List Name) (name : Name)
+    (h : validateNameserverResponse q resp mc = some (.delegation rrs hs name)) :
+    (∃ rr ∈ resp.answers ++ resp.authority, rr.name = name ∧ (nsTarget rr).isSome = true) ∧
+    (∀ rr ∈ resp.answers ++ resp.authority, (nsTarget rr).isSome = true →
+        q.name.isSubdomainOf rr.name = true → rr.name.labels.length ≤ name.labels.length) ∧
+    (∀ n, n ∈ hs ↔ ∃ rr ∈ resp.answers ++ resp.authority, nsTarget rr = some n ∧
+        q.name.isSubdomainOf rr.name = true ∧ rr.name.labels.length = name.labels.length) := by
+  obtain ⟨_, hc, _⟩ := validate_delegation h
+  have sp := chooseNs_spec hc
+  obtain ⟨pre1, rr, pre2, hp, hn, hcand, _⟩ := sp.first
+  refine ⟨⟨rr, by simp [hp], hn, hcand.1⟩, ?_, sp.hosts⟩
+  intro r hr h1 h2
+  exact sp.maxd r hr ⟨h1, h2⟩
+
+/-- Every record passed on with a referral is either an NS record owned by the chosen delegation
+    point whose target is one of the returned host names (taken from the answer or authority
+    section), or an A/AAAA record for one of those host names (from the answer or additional
+    section).  Nothing else of the reply is used. -/
+theorem C06_delegation_records_allowed (q : Question) (resp : Message) (mc : Nat) (rrs : List RR)
+    (hs : List Name) (name : Name)
+    (h : validateNameserverResponse q resp mc = some (.delegation rrs hs name)) :
+    ∀ rr ∈ rrs,
+      (∃ t, nsTarget rr = some t ∧ rr.name = name ∧ t ∈ hs ∧ rr ∈ resp.answers ++ resp.authority) ∨
+      ((rr.rtype = RT_A ∨ rr.rtype = RT_AAAA) ∧ rr.name ∈ hs ∧ rr ∈ resp.answers ++ resp.additional) := by
+  obtain ⟨_, _, hr⟩ := validate_delegation h
+  subst hr
+  intro rr hrr
+  rcases mem_delegRrs.mp hrr with ⟨hm, hk | hk⟩ | ⟨hm, hk⟩ | ⟨hm, hk⟩
+  · obtain ⟨t, h1, h2, h3⟩ := isNsOf_iff.mp hk
+    exact Or.inl ⟨t, h1, h2, h3, List.mem_append_left _ hm⟩
+  · obtain ⟨h1, h2⟩ := isGlueOf_iff.mp hk
+    exact Or.inr ⟨h1, h2, List.mem_append_left _ hm⟩
+  · obtain ⟨t, h1, h2, h3⟩ := isNsOf_iff.mp hk
+    exact Or.inl ⟨t, h1, h2, h3, List.mem_append_right _ hm⟩
+  · obtain ⟨h1, h2⟩ := isGlueOf_iff.mp hk
+    exact Or.inr ⟨h1, h2, List.mem_append_right _ hm⟩
+
+/-- The fuel `|map| + 1` given to the CNAME-following loop always suffices: any larger fuel gives
+    the same result (so the fuel is not observable and the model is faithful to the Rust `while`
+    loop). -/
+theorem C06_followLoop_fuel_suffices (cnameMap : NameMap) (start : Name) (k : Nat) :
+    followLoop cnameMap (cnameMap.length + 1 + k) start [] [] =
+      followLoop cnameMap (cnameMap.length + 1) start [] [] :=
+  followLoop_fuel_indep (seenOk_nil cnameMap) (by simp) k
+
+/-- With enough fuel the loop gives up (`none`) exactly when a loop was really detected: there
+    are pairwise distinct names `t₁ … t_k` with `start ↦ t₁ ↦ … ↦ t_k` in the map, and the
+    successor of the last of them (of `start` when `k = 0` — impossible then) is one of the `tᵢ`
+    again. -/
+theorem C06_followLoop_none_iff_loop (cnameMap : NameMap) (start : Name) (fuel : Nat)
+    (hf : cnameMap.length + 1 ≤ fuel) :
+    followLoop cnameMap fuel start [] [] = none ↔
+      ∃ (path : List Name) (t : Name), path.Nodup ∧
+        (∀ p ∈ (start :: path).zip path, nmGet cnameMap p.1 = some p.2) ∧
+        (∃ last, (start :: path).getLast? = some last ∧ nmGet cnameMap last = some t) ∧ t ∈ path := by
+  constructor
+  · intro h
+    obtain ⟨path, t, h1, _, h3, h4, h5⟩ :=
+      followLoop_none_loop (seenOk_nil cnameMap) (by simpa using hf) h
+    exact ⟨path, t, h3, chain_iff_links.mp h1, ⟨_, lastOr_eq_getLast start path, h4⟩, by simpa using h5⟩
+  · rintro ⟨path, t, h1, h2, ⟨last, h3, h4⟩, h5⟩
+    rw [lastOr_eq_getLast] at h3
+    cases h3
+    exact followLoop_none_of_loop (chain_iff_links.mpr h2) (by simp) h1 h4 (by simpa using h5) fuel []
+
+/-- The result `(fin, followed)` of following CNAMEs is one duplicate-free chain: there are
+    pairwise distinct names `target = n₀, n₁, …, n_k = fin` such that `followed` is exactly the
+    list of links `(nᵢ, nᵢ₊₁)`, looking up `nᵢ` in `followed` gives `nᵢ₊₁`, every link is backed by
+    a CNAME record of `rrs` (owner `nᵢ`, target `nᵢ₊₁`), no record of `rrs` is a CNAME owned by
+    `fin`, and when the chain is empty (`k = 0`) some record of `rrs` owned by `target` has the
+    asked type. -/
+theorem C06_follow_path (rrs : List RR) (target : Name) (qtype : Nat) (fin : Name) (followed : NameMap)
+    (h : followCnames rrs target qtype = some (fin, followed)) :
+    ∃ names : List Name,
+      names.head? = some target ∧ names.getLast? = some fin ∧ names.Nodup ∧
+      followed = names.zip names.tail ∧
+      (∀ a b, (a, b) ∈ followed ↔ nmGet followed a = some b) ∧
+      (∀ a b, (a, b) ∈ followed → ∃ rr ∈ rrs, rr.name = a ∧ cnameTarget rr = some b) ∧
+      (∀ rr ∈ rrs, rr.name = fin → cnameTarget rr = none) ∧
+      (names = [target] → ∃ rr ∈ rrs, rr.name = target ∧ rtypeMatches rr.rtype qtype = true) := by
+  obtain ⟨path, h1, h2, h3, h4, h5, h6⟩ := followCnames_some h
+  subst h5
+  refine ⟨target :: path, rfl, ?_, h2, rfl, ?_, ?_, ?_, ?_⟩
+  · rw [lastOr_eq_getLast, h3]
+  · intro a b
+    exact ⟨nmGet_of_mem_nodup (linksOf_keys_nodup h2), nmGet_mem⟩
+  · intro a b hab
+    have := chain_iff_links.mp h1 (a, b) hab
+    rw [nmGet_buildMap] at this
+    exact lastCname_some this
+  · rw [nmGet_buildMap] at h4
+    exact lastCname_none h4
+  · intro hn
+    have hp : path = [] := by simpa using hn
+    obtain ⟨rr, hr, hk⟩ := List.any_eq_true.mp (h6 hp)
+    exact ⟨rr, hr, by simpa using hk⟩
+
+/-- Records returned as an answer (`.answer rrs none`) or as a CNAME step (`.cname rrs c`): with
+    `(fin, followed)` the result of following the CNAMEs of the answer section from the question
+    name, every returned record is a record of the answer section of known type and class, and is
+    either of the asked type and owned by the final name `fin`, or a CNAME record that is one of
+    the followed links (`followed` maps its owner to its target).  By `C06_follow_path` the
+    followed links are the links of one duplicate-free chain from the question name to `fin`.
+    An answer contains at least one record of the asked type at `fin`; a CNAME step contains none
+    (all its records are links) and its target is `fin`. -/
+theorem C06_answer_records_allowed (q : Question) (resp : Message) (mc : Nat) (rrs : List RR) :
+    (validateNameserverResponse q resp mc = some (.answer rrs none) →
+      ∃ fin followed, followCnames resp.answers q.name q.qtype = some (fin, followed) ∧ rrs ≠ [] ∧
+        (∃ rr ∈ rrs, rtypeMatches rr.rtype q.qtype = true ∧ rr.name = fin) ∧
+        ∀ rr ∈ rrs, rr ∈ resp.answers ∧ rrIsUnknown rr = false ∧
+          ((rtypeMatches rr.rtype q.qtype = true ∧ rr.name = fin) ∨
+           (∃ t, cnameTarget rr = some t ∧ nmGet followed rr.name = some t))) ∧
+    (∀ c, validateNameserverResponse q resp mc = some (.cname rrs c) →
+      ∃ followed, followCnames resp.answers q.name q.qtype = some (c, followed) ∧ rrs ≠ [] ∧
+        ∀ rr ∈ rrs, rr ∈ resp.answers ∧ rrIsUnknown rr = false ∧
+          ¬ (rtypeMatches rr.rtype q.qtype = true ∧ rr.name = c) ∧
+          (∃ t, cnameTarget rr = some t ∧ nmGet followed rr.name = some t)) := by
+  constructor
+  · intro h
+    obtain ⟨fin, cm, hf, hr, hne, hany⟩ := validate_answer h
+    subst hr
+    refine ⟨fin, cm, hf, hne, ?_, ?_⟩
+    · obtain ⟨rr, hrr, hk⟩ := List.any_eq_true.mp hany
+      have hk' : rtypeMatches rr.rtype q.qtype = true ∧ rr.name = fin := by simpa using hk
+      exact ⟨rr, List.mem_filter.mpr ⟨hrr, ansKeep_iff.mpr (Or.inl hk')⟩, hk'⟩
+    · intro rr hrr
+      obtain ⟨hm, hk⟩ := List.mem_filter.mp hrr
+      obtain ⟨h1, h2⟩ := mem_knownOf.mp hm
+      exact ⟨h1, h2, ansKeep_iff.mp hk⟩
+  · intro c h
+    obtain ⟨cm, hf, hr, hne, hany⟩ := validate_cname h
+    subst hr
+    refine ⟨cm, hf, hne, ?_⟩
+    intro rr hrr
+    obtain ⟨hm, hk⟩ := List.mem_filter.mp hrr
+    obtain ⟨h1, h2⟩ := mem_knownOf.mp hm
+    have hnot : ¬ (rtypeMatches rr.rtype q.qtype = true ∧ rr.name = c) := by
+      intro hc
+      have : (knownOf resp).any (fun an => rtypeMatches an.rtype q.qtype && an.name == c) = true :=
+        List.any_eq_true.mpr ⟨rr, hm, by simpa using hc⟩
+      rw [hany] at this
+      cases this
+    refine ⟨h1, h2, hnot, ?_⟩
+    rcases ansKeep_iff.mp hk with h | h
+    · exact absurd h hnot
+    · exact h
+
+/-- Combination of `C06_answer_records_allowed` and `C06_follow_path`: for an answer or a CNAME
+    step there is ONE duplicate-free chain of names starting at the question name, every hop of
+    which is backed by a CNAME record of the answer section, such that every returned record is
+    either of the asked type and owned by the end of the chain, or a CNAME record that is a hop of
+    this chain.  No CNAME that is off the path from the question name is ever returned. -/
+theorem C06_returned_cnames_on_chain (q : Question) (resp : Message) (mc : Nat) (rrs : List RR)
+    (h : validateNameserverResponse q resp mc = some (.answer rrs none) ∨
+         ∃ c, validateNameserverResponse q resp mc = some (.cname rrs c)) :
+    ∃ names : List Name,
+      names.head? = some q.name ∧ names.Nodup ∧
+      (∀ p ∈ names.zip names.tail, ∃ rr ∈ resp.answers, rr.name = p.1 ∧ cnameTarget rr = some p.2) ∧
+      ∀ rr ∈ rrs,
+        (rtypeMatches rr.rtype q.qtype = true ∧ names.getLast? = some rr.name) ∨
+        (∃ t, cnameTarget rr = some t ∧ (rr.name, t) ∈ names.zip names.tail) := by
+  have key : ∃ fin followed, followCnames resp.answers q.name q.qtype = some (fin, followed) ∧
+      ∀ rr ∈ rrs, (rtypeMatches rr.rtype q.qtype = true ∧ rr.name = fin) ∨
+        (∃ t, cnameTarget rr = some t ∧ nmGet followed rr.name = some t) := by
+    rcases h with h | ⟨c, h⟩
+    · obtain ⟨fin, fol, hf, _, _, hall⟩ := (C06_answer_records_allowed q resp mc rrs).1 h
+      exact ⟨fin, fol, hf, fun rr hrr => (hall rr hrr).2.2⟩
+    · obtain ⟨fol, hf, _, hall⟩ := (C06_answer_records_allowed q resp mc rrs).2 c h
+      exact ⟨c, fol, hf, fun rr hrr => Or.inr (hall rr hrr).2.2.2⟩
+  obtain ⟨fin, fol, hf, hall⟩ := key
+  obtain ⟨names, h1, h2, h3, h4, h5, h6, _, _⟩ := C06_follow_path _ _ _ _ _ hf
+  subst h4
+  refine ⟨names, h1, h3, fun p hp => h6 p.1 p.2 hp, ?_⟩
+  intro rr hrr
+  rcases hall rr hrr with ⟨ha, hb⟩ | ⟨t, ht, hg⟩
+  · exact Or.inl ⟨ha, hb ▸ h2⟩
+  · exact Or.inr ⟨t, ht, (h5 rr.name t).mpr hg⟩
+
+/-- A negative answer (`.answer [] (some soa)`) is accepted only when the reply has no answers, its
+    rcode is NoError or NameError, `soa` is the one and only SOA record of the authority section,
+    its owner encloses the question name and is not above the delegation already reached. -/
+theorem C06_nodata_soa (q : Question) (resp : Message) (mc : Nat) (rrs : List RR) (soa : RR)
+    (h : validateNameserverResponse q resp mc = some (.answer rrs (some soa))) :
+    rrs = [] ∧ soa ∈ resp.authority ∧ soa.rtype = RT_SOA ∧ q.name.isSubdomainOf soa.name = true ∧
+    soa.name.labels.length ≥ mc ∧ resp.answers = [] ∧
+    (resp.header.rcode = 0 ∨ resp.header.rcode = 3) ∧
+    resp.authority.filter (fun rr => rr.rtype == RT_SOA) = [soa] ∧
+    (∀ rr ∈ resp.authority, rr.rtype = RT_SOA → rr = soa) := by
+  obtain ⟨h0, _, _, hs⟩ := validate_nodata h
+  obtain ⟨h1, h2, h3, h4, h5⟩ := getNxdomainNodataSoa_some hs
+  have hmem : soa ∈ resp.authority.filter (fun rr => rr.rtype == RT_SOA) := by simp [h3]
+  have hm := List.mem_filter.mp hmem
+  refine ⟨h0, hm.1, by simpa using hm.2, h4, h5, h1, h2, h3, ?_⟩
+  intro rr hrr hrt
+  have : rr ∈ resp.authority.filter (fun rr => rr.rtype == RT_SOA) :=
+    List.mem_filter.mpr ⟨hrr, by simp [hrt]⟩
+  rw [h3] at this
+  simpa using this
+
+/-! ## The capstone: the filter only returns what the specification allows -/
+
+/-- A negative answer returned by the filter is always accepted by the specification. -/
+theorem C06_validate_only_allowed_nodata (q : Question) (mc : Nat) (resp : Message) (rrs : List RR)
+    (soa : RR) (h : validateNameserverResponse q resp mc = some (.answer rrs (some soa))) :
+    USpec.checkValidated q mc resp (some (.answer rrs (some soa))) = none := by
+  obtain ⟨h0, _, _, hs⟩ := validate_nodata h
+  subst h0
+  exact check_nodata hs
+
+/-- A referral returned by the filter is accepted by the specification (zone = the deepest
+    enclosing NS owner below the current delegation, host names = exactly its NS set, records = its
+    NS records and glue for those hosts), provided the names of the reply are well-formed
+    (`NamesConsistent`: a name is determined by its labels, as in the Rust type). -/
+theorem C06_validate_only_allowed_delegation (q : Question) (mc : Nat) (resp : Message)
+    (hwf : NamesConsistent (resp.answers ++ resp.authority)) (rrs : List RR) (hs : List Name) (name : Name)
+    (h : validateNameserverResponse q resp mc = some (.delegation rrs hs name)) :
+    USpec.checkValidated q mc resp (some (.delegation rrs hs name)) = none := by
+  obtain ⟨_, hc, hr⟩ := validate_delegation h
+  subst hr
+  exact check_delegation hwf (chooseNs_spec hc)
+
+/-- A CNAME step returned by the filter is accepted by the specification (all records are CNAMEs
+    of the answer section lying on one simple CNAME path from the question name to the returned
+    target), provided the answer section has no two different CNAME records with the same owner
+    and target (`CnameLinksUnique`). -/
+theorem C06_validate_only_allowed_cname (q : Question) (mc : Nat) (resp : Message)
+    (huniq : CnameLinksUnique resp.answers) (rrs : List RR) (c : Name)
+    (h : validateNameserverResponse q resp mc = some (.cname rrs c)) :
+    USpec.checkValidated q mc resp (some (.cname rrs c)) = none := by
+  obtain ⟨cm, hf, hr, hne, hany⟩ := validate_cname h
+  subst hr
+  exact check_cname huniq hf hne hany
+
+/-- An answer returned by the filter is accepted by the specification (the CNAMEs not owned by the
+    final name lie on one simple path from the question name to it, everything else is owned by
+    the final name and of the asked type), under `CnameLinksUnique`. -/
+theorem C06_validate_only_allowed_answer (q : Question) (mc : Nat) (resp : Message)
+    (huniq : CnameLinksUnique resp.answers) (rrs : List RR)
+    (h : validateNameserverResponse q resp mc = some (.answer rrs none)) :
+    USpec.checkValidated q mc resp (some (.answer rrs none)) = none := by
+  obtain ⟨fin, cm, hf, hr, _, hany⟩ := validate_answer h
+  subst hr
+  exact check_answer huniq hf hany
+
+/-- **C06, full statement** (for replies whose names are well-formed and whose answer section
+    does not repeat a CNAME link): whatever the filter returns — answer, CNAME step, referral or
+    negative answer — passes the executable specification: every returned record is allowed. -/
+theorem C06_validate_only_allowed (q : Question) (mc : Nat) (resp : Message)
+    (hwf : NamesConsistent (resp.answers ++ resp.authority))
+    (huniq : CnameLinksUnique resp.answers) :
+    USpec.checkValidated q mc resp (validateNameserverResponse q resp mc) = none := by
+  cases h : validateNameserverResponse q resp mc with
+  | none => rfl
+  | some out =>
+    cases out with
+    | answer rrs soa =>
+      cases soa with
+      | none => exact C06_validate_only_allowed_answer q mc resp huniq rrs h
+      | some s => exact C06_validate_only_allowed_nodata q mc resp rrs s h
+    | cname rrs c => exact C06_validate_only_allowed_cname q mc resp huniq rrs c h
+    | delegation rrs hs name => exact C06_validate_only_allowed_delegation q mc resp hwf rrs hs name h
+
+/-- The capstone for decoder outputs: every message produced by the wire decoder satisfies `WfMsg`
+    (C03/C04), which gives the well-formedness of names; only the "no repeated CNAME link"
+    hypothesis remains. -/
+theorem C06_validate_only_allowed_wf (q : Question) (mc : Nat) (resp : Message) (hwf : WfMsg resp)
+    (huniq : CnameLinksUnique resp.answers) :
+    USpec.checkValidated q mc resp (validateNameserverResponse q resp mc) = none :=
+  C06_validate_only_allowed q mc resp (namesConsistent_of_wfMsg hwf) huniq
+
+/-- The unconditional form of the capstone.  It is FALSE as stated (see
+    `C06_unconditional_fails_duplicate_cname` and `C06_unconditional_fails_name_len`), which is why
+    `C06_validate_only_allowed` carries the two hypotheses. -/
+def C06_validate_only_allowed_unconditional_statement : Prop :=
+  ∀ (q : Question) (mc : Nat) (resp : Message),
+    USpec.checkValidated q mc resp (validateNameserverResponse q resp mc) = none
+
+/-- Counterexample 1 (specification over-strict, not a defect of the filter): the answer section
+    holds the same CNAME link `w.e. → n.` twice with different TTLs.  The filter returns both
+    records as the CNAME step; `USpec.onPath` wants all links to be records of ONE simple path,
+    which contains one record per hop, and rejects. -/
+theorem C06_unconditional_fails_duplicate_cname :
+    USpec.checkValidated ⟨⟨[[119],[101],[]], 5⟩, 1, 1⟩ 0
+      ⟨⟨0, true, 0, false, false, false, false, 0⟩, [],
+        [⟨⟨[[119],[101],[]], 5⟩, 5, [.name ⟨[[110],[]], 3⟩], 1, 10⟩,
+         ⟨⟨[[119],[101],[]], 5⟩, 5, [.name ⟨[[110],[]], 3⟩], 1, 20⟩], [], []⟩
+      (validateNameserverResponse ⟨⟨[[119],[101],[]], 5⟩, 1, 1⟩
+        ⟨⟨0, true, 0, false, false, false, false, 0⟩, [],
+          [⟨⟨[[119],[101],[]], 5⟩, 5, [.name ⟨[[110],[]], 3⟩], 1, 10⟩,
+           ⟨⟨[[119],[101],[]], 5⟩, 5, [.name ⟨[[110],[]], 3⟩], 1, 20⟩], [], []⟩ 0)
+      = some "cname-not-on-path-from-question" := by decide
+
+/-- Counterexample 2 (artefact of the model's `Name`, which carries `len` as a free field): two
+    NS records for `e.` whose owner names have the same labels but different `len`.  The filter
+    collects both hosts (it compares label counts) but keeps only the NS record whose owner is
+    equal to the chosen zone; the specification computes the host set from the records owned by
+    the zone and rejects.  Impossible in Rust, where `len` is a function of the labels. -/
+theorem C06_unconditional_fails_name_len :
+    USpec.checkValidated ⟨⟨[[119],[101],[]], 5⟩, 1, 1⟩ 0
+      ⟨⟨0, true, 0, false, false, false, false, 0⟩, [], [],
+        [⟨⟨[[101],[]], 3⟩, 2, [.name ⟨[[110],[]], 3⟩], 1, 60⟩,
+         ⟨⟨[[101],[]], 4⟩, 2, [.name ⟨[[109],[]], 3⟩], 1, 60⟩], []⟩
+      (validateNameserverResponse ⟨⟨[[119],[101],[]], 5⟩, 1, 1⟩
+        ⟨⟨0, true, 0, false, false, false, false, 0⟩, [], [],
+          [⟨⟨[[101],[]], 3⟩, 2, [.name ⟨[[110],[]], 3⟩], 1, 60⟩,
+           ⟨⟨[[101],[]], 4⟩, 2, [.name ⟨[[109],[]], 3⟩], 1, 60⟩], []⟩ 0)
+      = some "referral-hosts-not-the-ns-set" := by decide
+
+theorem C06_validate_only_allowed_unconditional_false :
+    ¬ C06_validate_only_allowed_unconditional_statement := by
+  intro h
+  have h1 := C06_unconditional_fails_duplicate_cname
+  rw [h] at h1
+  cases h1
+
+/-! ## Non-vacuity: concrete replies for each result constructor
+
+  Names: `w.e.` = `⟨[[119],[101],[]], 5⟩` (the question name), `e.` = `⟨[[101],[]], 3⟩`,
+  `n.` = `⟨[[110],[]], 3⟩`, `c.e.` = `⟨[[99],[101],[]], 5⟩`.  Types: A = 1, NS = 2, CNAME = 5,
+  SOA = 6. -/
+
+/-- a referral: NS `e. → n.` in the authority section, glue `n. A` in the additional section. -/
+example :
+    validateNameserverResponse ⟨⟨[[119],[101],[]], 5⟩, 1, 1⟩
+      ⟨⟨0, true, 0, false, false, false, false, 0⟩, [], [],
+        [⟨⟨[[101],[]], 3⟩, 2, [.name ⟨[[110],[]], 3⟩], 1, 60⟩],
+        [⟨⟨[[110],[]], 3⟩, 1, [.a 7], 1, 60⟩, ⟨⟨[[109],[]], 3⟩, 1, [.a 8], 1, 60⟩]⟩ 0
+      = some (.delegation
+          [⟨⟨[[101],[]], 3⟩, 2, [.name ⟨[[110],[]], 3⟩], 1, 60⟩, ⟨⟨[[110],[]], 3⟩, 1, [.a 7], 1, 60⟩]
+          [⟨[[110],[]], 3⟩] ⟨[[101],[]], 3⟩) := by decide
+
+/-- the same referral is not used when the delegation in use is already that deep (`mc = 2`). -/
+example :
+    validateNameserverResponse ⟨⟨[[119],[101],[]], 5⟩, 1, 1⟩
+      ⟨⟨0, true, 0, false, false, false, false, 0⟩, [], [],
+        [⟨⟨[[101],[]], 3⟩, 2, [.name ⟨[[110],[]], 3⟩], 1, 60⟩],
+        [⟨⟨[[110],[]], 3⟩, 1, [.a 7], 1, 60⟩]⟩ 2 = none := by decide
+
+/-- an answer through a CNAME: `w.e. CNAME c.e.`, `c.e. A 7`; the unrelated `n. A 9` and the
+    off-path `n. CNAME e.` are dropped. -/
+example :
+    validateNameserverResponse ⟨⟨[[119],[101],[]], 5⟩, 1, 1⟩
+      ⟨⟨0, true, 0, false, false, false, false, 0⟩, [],
+        [⟨⟨[[119],[101],[]], 5⟩, 5, [.name ⟨[[99],[101],[]], 5⟩], 1, 60⟩,
+         ⟨⟨[[110],[]], 3⟩, 5, [.name ⟨[[101],[]], 3⟩], 1, 60⟩,
+         ⟨⟨[[99],[101],[]], 5⟩, 1, [.a 7], 1, 60⟩,
+         ⟨⟨[[110],[]], 3⟩, 1, [.a 9], 1, 60⟩], [], []⟩ 0
+      = some (.answer
+          [⟨⟨[[119],[101],[]], 5⟩, 5, [.name ⟨[[99],[101],[]], 5⟩], 1, 60⟩,
+           ⟨⟨[[99],[101],[]], 5⟩, 1, [.a 7], 1, 60⟩] none) := by decide
+
+/-- a CNAME step: only `w.e. CNAME c.e.`, no address for `c.e.`. -/
+example :
+    validateNameserverResponse ⟨⟨[[119],[101],[]], 5⟩, 1, 1⟩
+      ⟨⟨0, true, 0, false, false, false, false, 0⟩, [],
+        [⟨⟨[[119],[101],[]], 5⟩, 5, [.name ⟨[[99],[101],[]], 5⟩], 1, 60⟩,
+         ⟨⟨[[110],[]], 3⟩, 1, [.a 9], 1, 60⟩], [], []⟩ 0
+      = some (.cname [⟨⟨[[119],[101],[]], 5⟩, 5, [.name ⟨[[99],[101],[]], 5⟩], 1, 60⟩]
+          ⟨[[99],[101],[]], 5⟩) := by decide
+
+/-- a CNAME loop `w.e. → c.e. → w.e.` is detected: no answer and (no NS, no SOA) nothing at all. -/
+example :
+    validateNameserverResponse ⟨⟨[[119],[101],[]], 5⟩, 1, 1⟩
+      ⟨⟨0, true, 0, false, false, false, false, 0⟩, [],
+        [⟨⟨[[119],[101],[]], 5⟩, 5, [.name ⟨[[99],[101],[]], 5⟩], 1, 60⟩,
+         ⟨⟨[[99],[101],[]], 5⟩, 5, [.name ⟨[[119],[101],[]], 5⟩], 1, 60⟩], [], []⟩ 0
+      = none := by decide
+
+/-- a negative answer: NXDOMAIN with the SOA of `e.` in the authority section. -/
+example :
+    validateNameserverResponse ⟨⟨[[119],[101],[]], 5⟩, 1, 1⟩
+      ⟨⟨0, true, 0, false, false, false, false, 3⟩, [], [],
+        [⟨⟨[[101],[]], 3⟩, 6, [], 1, 60⟩], []⟩ 0
+      = some (.answer [] (some ⟨⟨[[101],[]], 3⟩, 6, [], 1, 60⟩)) := by decide
+
+/-- the two hypotheses of the capstone are satisfiable (and decidable) on concrete sections. -/
+example : NamesConsistent ([⟨⟨[[101],[]], 3⟩, 2, [.name ⟨[[110],[]], 3⟩], 1, 60⟩,
+    ⟨⟨[[101],[]], 3⟩, 2, [.name ⟨[[109],[]], 3⟩], 1, 60⟩] : List RR) := by
+  unfold NamesConsistent; decide
+
+example : CnameLinksUnique ([⟨⟨[[119],[101],[]], 5⟩, 5, [.name ⟨[[99],[101],[]], 5⟩], 1, 60⟩,
+    ⟨⟨[[99],[101],[]], 5⟩, 1, [.a 7], 1, 60⟩] : List RR) := by
+  unfold CnameLinksUnique; decide
+
+/-- `followLoop`: a two-link chain, and the loop case. -/
+example :
+    followLoop [(⟨[[119],[]], 3⟩, ⟨[[99],[]], 3⟩), (⟨[[99],[]], 3⟩, ⟨[[100],[]], 3⟩)] 3 ⟨[[119],[]], 3⟩ [] []
+      = some (⟨[[100],[]], 3⟩, [⟨[[99],[]], 3⟩, ⟨[[100],[]], 3⟩],
+          [(⟨[[119],[]], 3⟩, ⟨[[99],[]], 3⟩), (⟨[[99],[]], 3⟩, ⟨[[100],[]], 3⟩)]) := by decide
+
+example :
+    followLoop [(⟨[[119],[]], 3⟩, ⟨[[99],[]], 3⟩), (⟨[[99],[]], 3⟩, ⟨[[119],[]], 3⟩)] 3 ⟨[[119],[]], 3⟩ [] []
+      = none := by decide
+
+/-- the hypotheses of the capstone hold for the CNAME-answer reply above, so the capstone
+    applies to it non-vacuously. -/
+example :
+    USpec.checkValidated ⟨⟨[[119],[101],[]], 5⟩, 1, 1⟩ 0
+      ⟨⟨0, true, 0, false, false, false, false, 0⟩, [],
+        [⟨⟨[[119],[101],[]], 5⟩, 5, [.name ⟨[[99],[101],[]], 5⟩], 1, 60⟩,
+         ⟨⟨[[99],[101],[]], 5⟩, 1, [.a 7], 1, 60⟩], [], []⟩
+      (some (.answer
+          [⟨⟨[[119],[101],[]], 5⟩, 5, [.name ⟨[[99],[101],[]], 5⟩], 1, 60⟩,
+           ⟨⟨[[99],[101],[]], 5⟩, 1, [.a 7], 1, 60⟩] none)) = none := by decide
 
 end Resolved
